@@ -1,0 +1,36 @@
+//go:build verif
+
+package adapter
+
+import (
+	"time"
+
+	"github.com/karagenc/socket.io-go/parser"
+)
+
+// Exported wrappers for the verification harness (build tag `verif`).
+
+// VerifNewSessionAwareAdapterCreator is NewSessionAwareAdapterCreator with a configurable
+// clean-up period (production hard-codes one minute). A period of 0 starts no cleaner.
+func VerifNewSessionAwareAdapterCreator(maxDisconnectionDuration, cleanerDuration time.Duration) Creator {
+	creator := NewInMemoryAdapterCreator()
+	return func(socketStore SocketStore, parserCreator parser.Creator) Adapter {
+		inMemoryAdapter := creator(socketStore, parserCreator).(*inMemoryAdapter)
+		return newSessionAwareAdapter(inMemoryAdapter, maxDisconnectionDuration, cleanerDuration)
+	}
+}
+
+// VerifPacketLogIDs returns the ids of the packets currently in the log of a session-aware adapter.
+func VerifPacketLogIDs(a Adapter) []string {
+	s, ok := a.(*sessionAwareAdapter)
+	if !ok {
+		return nil
+	}
+	s.mu.Lock()
+	defer s.mu.Unlock()
+	ids := make([]string, len(s.packets))
+	for i, p := range s.packets {
+		ids[i] = p.ID
+	}
+	return ids
+}
